@@ -27,11 +27,13 @@ type (
 		hashT1
 		C float64
 	}
-	hashT8 struct{ B []byte }
+	hashT8  struct{ B []byte }
+	hashID  int64
+	hashCur string
 )
 
 // The last two types have the same package name and type name ("dup.T") but different import paths.
-var hashPool = []interface{}{hashT1{}, hashT2{}, hashT3{}, hashT4{}, hashT5{}, hashT6{}, hashT7{}, hashT8{}, dupa.T{}, dupb.T{}}
+var hashPool = []interface{}{hashT1{}, hashT2{}, hashT3{}, hashT4{}, hashT5{}, hashT6{}, hashT7{}, hashT8{}, dupa.T{}, dupb.T{}, hashID(0), hashCur("")}
 
 // childHashMain registers the pool types named by VERIF_HASH_ORDER (comma separated indexes,
 // repetitions allowed) in that order and prints the resulting types hash.
